@@ -12,7 +12,8 @@ RULE = ("(a) exhaustive: for every N in 2..5 and every level m+1 with N*(m+1) <=
         "by induction; (b) Hypothesis-generated deep cases: N in 2..5, N*m<=50, index weighted to 0, T-1, the "
         "last 2e6 subintervals, powers of two +-1 and sub-cube boundaries, offset inside the subinterval (first, "
         "second, middle, last, uniform; exact dyadic n/2^53), arbitrary doubles, x=1, arbitrary boxes, the object configured through the constructor, through SetBounds "
-        "on a new or an already used object, or driven through a query history (each query preceded by the same "
+        "on a new or an already used object (also one built for an integer box written with Python ints), through "
+        "float64 arrays the caller overwrites afterwards, through integer-typed bounds, or driven through a query history (each query preceded by the same "
         "query, an inverse query and a SetBounds round trip through another box); (c) N=1 any "
         "m: containment in cell i. Non-trivial (generated part): index not in {0,T-1} and N*m>=20; exhaustive "
         "part: every subinterval counts once. Distinct = distinct (N,m,i,offset,box).")
